@@ -3,6 +3,7 @@ import Driver.ObjFmt
 import Parsley.Model.Indirect
 import Parsley.Spec.Framing
 import Parsley.Spec.FramingWide
+import Parsley.Spec.FramingKinds
 namespace Driver.C05
 open Parsley Parsley.Prim Parsley.Obj Parsley.Indirect Parsley.Framing Driver
 
@@ -163,15 +164,16 @@ def showDefs (d : SDefs) : String :=
 def judgeScene (hex offs ids desc impl : String) : String :=
   match bytesOfHex hex, splitNats offs, splitIds ids, parseDesc desc with
   | some buf, some offs, some ids, some items =>
-    let (rb, lays) := renderScene items 0
+    let (rb, lays) := renderSceneK items 0
     if rb != buf then "bad desc-mismatch the description does not render to the buffer"
     else if lays.map (·.off) != offs then "bad desc-mismatch offsets"
     else
       -- the oracle for literals of any size (Spec/FramingWide.lean); on scenes written inside the
       -- i64 range it must say what the original oracle `Framing.expectScene` says
-      let (exps, d) := expectSceneW buf [] items lays
+      -- (plain objects of the extended kinds, Spec/FramingKinds.lean: `expectSceneK` adds their values, no clause)
+      let (exps, d) := expectSceneK buf [] items lays
       let (exps0, d0) := expectScene buf [] items lays
-      if items.all narrowItem && (exps.map expectStr != exps0.map expectStr || showDefs d != showDefs d0) then
+      if items.all (fun it => narrowItem it && !isKind it) && (exps.map expectStr != exps0.map expectStr || showDefs d != showDefs d0) then
         "bad oracle-disagreement expectSceneW differs from expectScene on a scene inside the i64 range"
       else
       let segs := impl.splitOn " | "
@@ -318,8 +320,11 @@ def mkStream (num gen pre post order lk la lb lkey : Nat) (ws : List Nat) (eol1 
 def mkPlain (num gen vk va : Nat) (ws : List Nat) (eo : Nat) : Item :=
   ⟨false, [num, gen, vk, va, 0, 0, 0, 0, 0] ++ (ws ++ List.replicate 6 0).take 6 ++ [0, 0, 0, eo], []⟩
 
+def mkPlainK (num gen j a b : Nat) (ws : List Nat) (eo : Nat) : Item :=
+  ⟨false, [num, gen, kindBase + j, a, b, 0, 0, 0, 0] ++ (ws ++ List.replicate 6 0).take 6 ++ [0, 0, 0, eo], []⟩
+
 def sceneCase (d : Nat) (items : List Item) (extraIds : List (Nat × Nat)) : String :=
-  let (buf, lays) := renderScene items 0
+  let (buf, lays) := renderSceneK items 0
   let offs := ",".intercalate (lays.map fun l => toString l.off)
   let ids := (items.map fun it => (it.num, it.gen)) ++ extraIds
   -- identifiers that are not object identifiers (a number above 2^63-1) cannot be looked up
@@ -368,7 +373,7 @@ def viewSteps (shape p n s : Nat) : List VStep :=
 /-- what would complete the last stream of a scene behind the window: its declared (direct, positive)
     length reaches the end of the window or beyond it -/
 def completion (items : List Item) : Option Bytes :=
-  let (buf, lays) := renderScene items 0
+  let (buf, lays) := renderSceneK items 0
   match items.getLast?, lays.getLast? with
   | some it, some lay =>
     if !it.isStream then none else
@@ -499,6 +504,78 @@ def generations (emit : String → IO Unit) : IO Unit := do
             if ctxKind == 2 then
               emit (sceneCase 10 (tItems ++ [{ st 1 with f := (st 1).f.set 1 rg }]) [(7, rg), (7, og), (1, 0)])
 
+/-! ### the object referenced by `/Length n g R`, of every kind
+
+  The stream declares `/Length 7 0 R`; what (7, 0) is varies over every kind of object, each one
+  DEFINED (registered in the context) before the stream is parsed: integers (the payload length and
+  its neighbours, negative, the boundaries of i64, literals outside i64), reals (`l.0`, `l.5`,
+  `-l.0`, `+l.00`), booleans, null, a name `/l`, a literal and a hexadecimal string spelling `l`,
+  an array `[l]`, a dictionary `<</Length l>>`, a stream object of length `l`, and a REFERENCE:
+  to an integer through a chain of 2..5 references (defined in either order), to a chain that ends
+  in an undefined object / a real / a name, to itself, to a 2-cycle, a 3-cycle, a cycle entered
+  from outside, to the stream object being parsed, to the same number under another generation.
+  Expected (`Framing.resolve`, the executable `LenRes`): accepted only when (7, 0) is a non-negative
+  integer that frames the data; `needs more context` only when (7, 0) itself is undefined (the
+  forward variants, first parse); rejected with another error in every other case - a reference is
+  not an integer and is not followed, so the end of the chain (an integer that WOULD frame the data,
+  nothing, a cycle) must not matter.  The framing is valid throughout (the verdict depends on the
+  length alone).  An implementation that recurses on a cycle overflows its stack or does not
+  terminate: `./check` records `crash:<rc>` / `hang` for the case and carries on. -/
+
+/-- the shapes: (objects defined before the stream, is it cyclic?) for a payload `p` -/
+def targetShapes (p : Bytes) (pw : List Nat) (k : Nat) : List (List Item × Bool) :=
+  let l := p.length
+  let int (n v : Nat) : Item := mkPlain n 0 0 v pw 0
+  let neg (n v : Nat) : Item := mkPlain n 0 1 v pw 0
+  let ref (n a : Nat) : Item := mkPlainK n 0 10 a 0 pw 0
+  let acyclic (xs : List (List Item)) := xs.map fun x => (x, false)
+  -- integers
+  acyclic [[int 7 l], [int 7 (l + 1)], [int 7 (l + 7)], [neg 7 l], [neg 7 (l + 1)], [int 7 (2 ^ 63 - 1)], [neg 7 (2 ^ 63)],
+           [int 7 (2 ^ 63)], [int 7 (2 ^ 64 + l)], [neg 7 (2 ^ 64 - l)], [int 7 (2 ^ 127 + l)]] ++
+  -- every other kind of object with the payload length written in it
+  acyclic (([0, 1, 2, 3, 4, 5, 6, 7, 8, 9, 11, 12] : List Nat).map fun j => [mkPlainK 7 0 j l 0 pw 0]) ++
+  acyclic ((List.range 7).map fun t => [mkPlain 7 0 (t + 2) 0 pw 0]) ++
+  -- a stream object
+  acyclic [[mkStream 7 0 0 0 0 0 l 0 0 pw (k % 2) (k % 4) 0 0 p]] ++
+  -- chains of references: 7 -> 8 -> … -> (7+c-1), whose end is an integer / a real / a name / undefined
+  acyclic (([2, 3, 4, 5] : List Nat).flatMap fun c =>
+    let refs := (List.range (c - 1)).map fun i => ref (7 + i) (7 + i + 1)
+    let e := 7 + c - 1
+    ([[int e l], [int e (l + 1)], [], [mkPlainK e 0 0 l 0 pw 0], [mkPlainK e 0 5 l 0 pw 0]] : List (List Item)).flatMap fun endObj =>
+      [refs ++ endObj, (refs ++ endObj).reverse]) ++
+  -- by generation: 7 0 -> 8 1 (an integer) / -> 8 1 while only 8 0 is defined / -> 7 1 (same number)
+  acyclic [[mkPlainK 7 0 10 8 1 pw 0, mkPlain 8 1 0 l pw 0], [mkPlainK 7 0 10 8 1 pw 0, int 8 l],
+           [mkPlainK 7 0 10 7 1 pw 0, mkPlain 7 1 0 l pw 0], [mkPlain 7 1 0 l pw 0, mkPlainK 7 0 10 7 1 pw 0],
+           -- to the stream object itself (not defined while it is being parsed)
+           [ref 7 1], [ref 7 2]] ++
+  -- cycles: itself, two, three, a cycle entered from outside
+  [([ref 7 7], true), ([ref 7 8, ref 8 7], true), ([ref 8 7, ref 7 8], true), ([ref 7 8, ref 8 9, ref 9 7], true),
+   ([ref 7 8, ref 8 9, ref 9 8], true), ([ref 7 8, ref 8 8], true)]
+
+def lengthTargets (emit : String → IO Unit) (full : Bool) : IO Unit := do
+  let mut k := 0
+  let ps := if full then payloads else [bs "hello", ([] : Bytes), bs "x\n", bs "endstream endobj xx"]
+  let mut pi := 0
+  for p in ps do
+    pi := pi + 1
+    let nshapes := (targetShapes p [] 0).length
+    for si in List.range nshapes do
+      k := k + 1
+      let ws := [k % 9, k % 7, k % 5, k % 4, k % 3, k % 8]
+      let pw := [k % 5, k % 3, 0, k % 2, k % 4]
+      match (targetShapes p pw k)[si]? with
+      | none => pure ()
+      | some (tgt, cyclic) =>
+        -- (quick tier: the cyclic shapes for two payloads only - each costs a restart of the
+        -- harness, or the hang watchdog's 30 s, with an implementation that follows references)
+        if full || !cyclic || pi ≤ 2 then
+          let st (num : Nat) := mkStream num 0 (k % 4) ((k / 4) % 4) (k % 3) 1 7 0 0 ws (k % 2) ((k / 2) % 4) 0 0 p
+          let ids : List (Nat × Nat) := [(7, 0), (8, 0), (8, 1), (12, 0)]
+          -- everything defined before the stream
+          emit (sceneCase 10 (tgt ++ [st 1]) ids)
+          -- forward: the stream first (needs more context), then the objects, then the stream again
+          emit (sceneCase 10 ([st 1] ++ tgt ++ [st 2]) ids)
+
 /-! ### literals outside the i64 range
 
   A number token of magnitude >= 2^63 is not an Integer object (Spec/NumLit.lean): as a declared
@@ -587,6 +664,13 @@ def randItem (r : Rng) (ids : List Nat) : Item × Rng :=
     let (vk, r) := r.nat 9
     let (va, r) := r.nat 30
     let vk := if vk > 8 then 0 else if vk ≥ 4 then vk - 2 else if vk == 3 then 1 else 0
+    -- one plain object in five is a REFERENCE to an identifier of the pool (chains and cycles of
+    -- references arise among the length targets), one in five another kind of Spec/FramingKinds.lean
+    let (x, r) := r.nat 5
+    let (tgt, r) := r.pick (if ids.isEmpty then [1] else ids)
+    if x == 0 then (mkPlainK num gen 10 tgt (if va % 7 == 0 then 1 else 0) ws (if defect == 0 then 1 else 0), r)
+    else if x == 1 then (mkPlainK num gen (va % 13) (va / 13 + 3) 0 ws (if defect == 0 then 1 else 0), r)
+    else
     (mkPlain num gen vk va ws (if defect == 0 then 1 else 0), r)
   else
     let (p, r) := randPayload r
@@ -628,6 +712,7 @@ def gen (seed n : Nat) (tier : String) (emit0 : String → IO Unit) : IO Unit :=
   let emit := emitC none
   cutWindows emit0 (tier == "thorough")
   generations emit
+  lengthTargets emit (tier == "thorough")
   wide emit (tier == "thorough")
   systematic emit (tier == "thorough")
   let mut r := Rng.mk' seed
@@ -649,7 +734,7 @@ def gen (seed n : Nat) (tier : String) (emit0 : String → IO Unit) : IO Unit :=
     let (d, r4) := r3.nat 6
     emit (sceneCase (if d == 0 then 3 else 10) items [(1, 0), (2, 0), (1, 1), (2, 65535), (9, 9)])
     -- malformed: one byte changed / removed, or a truncation, of the rendered scene
-    let (buf, lays) := renderScene items 0
+    let (buf, lays) := renderSceneK items 0
     let (pos, r5) := r4.nat (buf.length + 1)
     let (how, r6) := r5.nat 4
     let (b, r7) := r6.byte
